@@ -119,10 +119,20 @@ pub fn build(spec: &SetSpec, tokio_yield: bool) -> Built {
     let log: Log = Arc::new(Mutex::new(vec![]));
     let counts = Arc::new(Mutex::new(BTreeMap::new()));
     let mut b = ruleset();
-    for (name, expr) in &spec.rules {
-        b = b
-            .with_rule(Rule::new(name.clone(), BTreeMap::new(), expr.clone()))
-            .expect("harness generates distinct rule names");
+    // every builder entry point is used: the first rule through with_rule, the next two through one with_rules batch,
+    // the rest one by one (so with_rules is called on a builder that already holds rules)
+    let mk = |name: &String, expr: &Expr| Rule::new(name.clone(), BTreeMap::new(), expr.clone());
+    let mut i = 0;
+    while i < spec.rules.len() {
+        if i == 1 && spec.rules.len() >= 3 {
+            b = b
+                .with_rules(vec![mk(&spec.rules[1].0, &spec.rules[1].1), mk(&spec.rules[2].0, &spec.rules[2].1)])
+                .expect("harness generates distinct rule names");
+            i += 2;
+        } else {
+            b = b.with_rule(mk(&spec.rules[i].0, &spec.rules[i].1)).expect("harness generates distinct rule names");
+            i += 1;
+        }
     }
     for (name, fs) in &spec.fns {
         let p = Probe {
@@ -135,6 +145,9 @@ pub fn build(spec: &SetSpec, tokio_yield: bool) -> Built {
         };
         b = if name == DEFAULT_CACHEABILITY_NAME && fs.cacheable {
             b.with_function(DefaultCacheabilityProbe(p))
+        } else if name == "fb" || name == "lp" {
+            // registered already boxed, through the batch entry point
+            b.with_functions(vec![Box::new(p) as Box<dyn UserFunction + Send + Sync>])
         } else {
             b.with_function(p)
         }
